@@ -367,11 +367,10 @@ func (l *NDNLPLinkService) handleIncomingFrame(frame []byte) {
 			copy(pkt.PitToken, LP.PitToken)
 		}
 
-		// Copy fragment to wire buffer
-		wire = wire[:0]
-		for _, b := range fragment {
-			wire = append(wire, b...)
-		}
+		// The fragments are slices of private copies of the frames that carried them (see
+		// above). A single fragment is used in place; several are joined into a new buffer.
+		// (Reusing the buffer of the current frame here would overwrite the fragment it holds.)
+		wire = fragment.Join()
 
 		// Parse inner packet in place
 		L3, _, err := spec.ReadPacket(enc.NewBufferReader(wire))
